@@ -172,9 +172,11 @@ def conclude(res, tier, t0, info):
         with open(rp, "w") as f:
             json.dump({"property": res.pid,
                        "findings": [x.as_dict() for x in new]}, f, indent=1)
-        for f_ in new:
+        for f_ in new[:12]:
             print("  finding [%s] %s: %s\n      key=%s" %
                   (f_.rule, f_.where, f_.message, f_.key))
+        if len(new) > 12:
+            print("  ... and %d more finding(s), all in %s" % (len(new) - 12, rp))
         print("VIOLATION property=%s replay=%s" % (res.pid, rp))
         rc = 1
     write_evidence(res, tier, wall, info, len(new), sorted(set(known_hit)),
